@@ -722,9 +722,14 @@ def c16(ctx):
                 "SetString/SetInt/SetNull/delete-first-member on the original or on the clone at every position} is replayed and every read "
                 "API, plus a serialize round trip, of BOTH objects is compared with the spec's two documents; stream values are re-read "
                 "after the stream moved on and other values were recycled (v-stream). Non-trivial = history with at least one operation.")
-    r = ctx.tlc("MC_Alias", consts={"MaxOps": 3 if quick(ctx) else 4}, dump="states", label="alias histories", timeout=3000)
-    ctx.vh(["g-alias", "-dump", r["dump"], "-expect", str(r["distinct"]), "-property", "C16"], timeout=7200)
-    os.remove(r["dump"])
+    # quick: histories of <= 3 operations x every reuse / option setting; thorough adds <= 4 operations on a fresh object
+    runs = [({"MaxOps": 3}, "alias histories x option pairs")]
+    if not quick(ctx):
+        runs.append(({"MaxOps": 4, "PrevModes": '{"fresh"}', "HowModes": '{"explicit"}'}, "alias histories of 4 operations"))
+    for consts, label in runs:
+        r = ctx.tlc("MC_Alias", consts=consts, dump="states", label=label, timeout=3000)
+        ctx.vh(["g-alias", "-dump", r["dump"], "-expect", str(r["distinct"]), "-property", "C16"], timeout=7200)
+        os.remove(r["dump"])
     ctx.vh(["v-stream", "-seed", str(ctx.seed), "-runs", "2" if quick(ctx) else "6", "-property", "C16"], timeout=3000)
     ctx.exhaustive = True
 
